@@ -99,7 +99,12 @@ func bitField(nd data.UnixFSData) (bitfield.Bitfield, error) {
 	if err != nil {
 		return nil, err
 	}
-	bf.SetBytes(nd.FieldData().Must().Bytes())
+	bits := nd.FieldData().Must().Bytes()
+	if len(bits) > len(bf) {
+		// SetBytes panics on a bitfield that is longer than the width allows
+		return nil, fmt.Errorf("hamt bitfield (%d bytes) too long for width (%d)", len(bits), fanout)
+	}
+	bf.SetBytes(bits)
 	return bf, nil
 }
 
